@@ -67,7 +67,12 @@ class Parser:
         self._load_runtime()
         self._tokens = Lex(input_string).tokens()
         self.next_token()
-        return self._script()
+        try:
+            return self._script()
+        except RecursionError:
+            # Hundreds of constructs inside one another: more than the
+            # recursive descent can follow.
+            return self.trigger_error('The script is nested too deeply.')
 
     def get_program(self):
         return self._code_gen.program
